@@ -1,6 +1,7 @@
 import Cvise.Drv.Binary
 import Cvise.Drv.Matcher
 import Cvise.Drv.Driver
+import Cvise.Drv.PassGroup
 open Cvise.Drv
 
 def dispatch (line : String) : String :=
@@ -11,6 +12,7 @@ def dispatch (line : String) : String :=
   | "msearch" :: args => handleMSearch args
   | "rx" :: args => handleRx args
   | "drv" :: _ => handleDrv line
+  | "group" :: _ => handleGroup line
   | _ => "bad-op"
 
 partial def loop (h : IO.FS.Stream) (out : IO.FS.Stream) : IO Unit := do
